@@ -335,6 +335,36 @@ let cmd_aliasrun t =
     List.iter (fun b -> out_int (List.length (List.filter (fun x -> x = b) w))) [BufX; BufQ; BufU; BufF];
     out_sep ()) (run sip init_state ops)
 
+(* lifecycle n data[n] nops ops... ; op: 0 np perm | 1 np perm (compress) | 2 nf fresh nu ids xs np perm
+   -> per op: raised | raw | vorder (or -1) | graph_rows has_graph searchable *)
+let cmd_lifecycle t =
+  let n = next_int t in let data = next_list t n in
+  let nops = next_int t in
+  let natlist () = let k = next_int t in List.init k (fun _ -> nat_of_int (next_int t)) in
+  let ops = List.init nops (fun _ ->
+    match next_int t with
+    | 0 -> LPrepare (natlist ())
+    | 1 -> LCompress (natlist ())
+    | _ -> let nf = next_int t in let fresh = next_list t nf in
+           let ids = natlist () in let nu = List.length ids in let xs = next_list t nu in
+           let perm = natlist () in LUpdate (fresh, ids, xs, perm)) in
+  List.iter (fun (s, e) ->
+    out_int (if e then 1 else 0); out_sep ();
+    out_list s.raw; out_sep ();
+    (match s.vorder with None -> out_int (-1) | Some p -> List.iter (fun x -> out_int (int_of_nat x)) p); out_sep ();
+    out_int (int_of_nat s.graph_rows); out_int (if s.has_graph then 1 else 0); out_int (if s.searchable then 1 else 0);
+    out_str "#") (lrun (linit data) ops)
+
+(* invalidate inf nu U[nu] n k ind[n*k] dist[n*k] -> ind | dist *)
+let cmd_invalidate t =
+  let inf = next_z t in
+  let nu = next_int t in let u = List.init nu (fun _ -> nat_of_int (next_int t)) in
+  let n = next_int t in let k = next_int t in
+  let ind = next_mat t n k in let dist = next_mat t n k in
+  let g = List.map2 (fun ri rd -> List.combine ri rd) ind dist in
+  let g' = invalidate inf u g in
+  out_mat (List.map (List.map fst) g'); out_sep (); out_mat (List.map (List.map snd) g')
+
 (*DISPATCH-BEGIN*)
 let dispatch : (string * (toks -> unit)) list = [
   ("heapseq", cmd_heapseq);
@@ -361,6 +391,8 @@ let dispatch : (string * (toks -> unit)) list = [
   ("otcert", cmd_otcert);
   ("rejsample", cmd_rejsample);
   ("aliasrun", cmd_aliasrun);
+  ("lifecycle", cmd_lifecycle);
+  ("invalidate", cmd_invalidate);
   ("conncert", cmd_conncert);
 ]
 (*DISPATCH-END*)
